@@ -278,6 +278,20 @@ class CallMixin:
     def bi_max(self, args, kwargs, st, spec):
         return self._minmax(args, st, spec, False, kwargs)
 
+    def bi_np_allclose(self, args, kwargs, st, spec):
+        a, b = args[0], args[1]
+        rtol = self.to_real(kwargs["rtol"]) if "rtol" in kwargs else z3.RealVal("1/100000")
+        atol = self.to_real(kwargs["atol"]) if "atol" in kwargs else z3.RealVal("1/100000000")
+        e1, arr1, off1, l1 = self.seq_of(a, st, spec)
+        e2, arr2, off2, l2 = self.seq_of(b, st, spec)
+        if not spec:
+            self.ctx.oblige(st, "safe:shape", l1 == l2, text="np.allclose on sequences of equal length")
+        i = self.ctx.fresh("i", z3.IntSort())
+        x, y = self.to_real(SV(e1, arr1[_ix(i, off1)])), self.to_real(SV(e2, arr2[_ix(i, off2)]))
+        ab = lambda t: z3.If(t >= 0, t, -t)
+        self.ctx.models_used.add("np.allclose(a, b): |a_i - b_i| <= atol + rtol * |b_i| for every i (defaults 1e-8, 1e-5)")
+        return mk_bool(z3.ForAll([i], z3.Implies(z3.And(0 <= i, i < l1), ab(x - y) <= atol + rtol * ab(y)), qid="allclose_%s" % i))
+
     def bi_np_subtract(self, args, kwargs, st, spec):
         a, b = args
         e1, arr1, off1, l1 = self.seq_of(a, st, spec)
@@ -437,6 +451,8 @@ class CallMixin:
                 return mk_bool(True)
             if v.ty.kind == "ref" and a.aux == "__iter__":
                 return mk_bool(self.reg.method_contract(v.ty.arg, "__iter__") is not None)
+            if v.ty.kind == "ref" and self.reg.field(v.ty.arg, "has_" + a.aux) is not None:
+                return self.read_field(v, "has_" + a.aux, st, spec)      # optional user hook: a boolean attribute of the object
         raise Unsupported("hasattr")
 
     def bi_time_time(self, args, kwargs, st, spec):
